@@ -65,6 +65,10 @@ def check_config(cfg, w, rep):
         for (lf, b, blk, t) in prog.callers_of(g):
             n_o += 1
             at = w.sym.of_operand(b, t.args[ai])
+            if not is_default_algo(at):
+                from ..symval import inline_private_calls
+                roles_ = set(w.roles.hash_fns) | set(w.roles.bucket_path) | set(w.roles.content_path)
+                at = inline_private_calls(w.sym, prog, at, skip=roles_)
             if is_default_algo(at):
                 rep.ob(cfg, "a-opts-algo", "%s->%s" % (fn_key(lf), short(p)), "`%s` passes opts.algorithm.unwrap_or(Sha256)" % short(lf.path))
             else:
@@ -250,3 +254,12 @@ def check_config(cfg, w, rep):
     sub = Report("C02")
     c02.check_config(cfg, w, sub)
     _import(cfg, rep, sub, ("d-replacing-rename",), "e")
+    # (b') the address equals the digest of the bytes: what is fed to the digest builder is exactly what was written / read —
+    # the digest/sink agreement of the content writers (C02 a) and, with link_to, the exact-slice clause of the linkers' read
+    # methods (C19 b), re-checked here
+    _import(cfg, rep, sub, ("a-digest-sink", "a-whole-sink"), "b")
+    if "link_to" in cfg:
+        from . import c19
+        sub = Report("C19")
+        c19.check_config(cfg, w, sub)
+        _import(cfg, rep, sub, ("b-hashes-what-it-reads", "b-input-slice"), "b")
